@@ -422,7 +422,7 @@ def _ceil_div(e):
 def _terms(ctx, f, e, depth=0):
     if isinstance(e, ast.BinOp) and isinstance(e.op, ast.Add):
         return _terms(ctx, f, e.left, depth) + _terms(ctx, f, e.right, depth)
-    if isinstance(e, ast.Name) and depth < 3:
+    if isinstance(e, ast.Name) and depth < 3 and ctx is not None:
         v = pat.single_def(ctx, f, e)
         if v is not None:
             return _terms(ctx, f, v, depth + 1)
@@ -440,18 +440,20 @@ def r5_sizes(ctx):
         if f is None:
             continue
         rets = pat.returns(f)
-        ctx.require(len(rets) == 1 and isinstance(rets[0].value, ast.Name),
-                    "C20.R5: %s.getSize does not return one accumulated variable" % cname)
-        var = rets[0].value.id
+        # the returned sum along every path (sa/symcase.py): the layout's
+        # arrays are the union of the summands -- an accumulator with
+        # conditional `+=`, early returns or one expression alike
+        from .. import symcase
+        outs = symcase.Evaluator(ctx, lambda t: None).run(f)
+        ctx.require(rets and outs and not any(o.opaque or not o.returned or o.ret is None
+                                              for o in outs
+                                              if not isinstance(o.ret_stmt, ast.Raise)),
+                    "C20.R5: %s.getSize cannot be followed to its returned sum" % cname)
         terms = []
-        for n in f.own_nodes():
-            if isinstance(n, ast.Assign) and text(n.targets[0]) == var:
-                terms += _terms(ctx, f, n.value)
-            elif isinstance(n, ast.AugAssign) and text(n.target) == var:
-                if not isinstance(n.op, ast.Add):
-                    terms.append(n)
-                else:
-                    terms += _terms(ctx, f, n.value)
+        for o in outs:
+            if isinstance(o.ret_stmt, ast.Raise):
+                continue
+            terms += _terms(None, None, o.ret)
         got = set()
         odd = []
         for t in terms:
